@@ -176,6 +176,36 @@ func mutantSelfTest(prop, repo string) []mutantOutcome {
 	return out
 }
 
+// benignSelfTest: the converse self-test. Every catalogued behaviour-preserving variant (benign/*/patch.diff) is applied
+// to a scratch copy and the property's rules are run on it; any obligation that is not discharged is a false alarm of
+// the rules. Informational like the mutant self-test: it does not affect the verdict for /repo.
+func benignSelfTest(prop, repo string) []mutantOutcome {
+	paths, _ := filepath.Glob(filepath.Join(verifDir, "benign", "*", "patch.diff"))
+	sort.Strings(paths)
+	out := make([]mutantOutcome, len(paths))
+	var wg sync.WaitGroup
+	sem := make(chan struct{}, 8)
+	for i, pth := range paths {
+		wg.Add(1)
+		go func(i int, pth string) {
+			defer wg.Done()
+			sem <- struct{}{}
+			defer func() { <-sem }()
+			rel, _ := filepath.Rel(verifDir, pth)
+			mo := runMutant(prop, repo, mutantSpec{Patch: rel})
+			switch mo.Outcome {
+			case "killed":
+				mo.Outcome = "alarm"
+			case "survived":
+				mo.Outcome = "silent"
+			}
+			out[i] = mo
+		}(i, pth)
+	}
+	wg.Wait()
+	return out
+}
+
 func runMutant(prop, repo string, s mutantSpec) mutantOutcome {
 	mo := mutantOutcome{Patch: s.Patch}
 	dir, err := os.MkdirTemp("", "sscheck-mutant-")
@@ -270,7 +300,7 @@ func main() {
 		*tier = t
 	}
 	results := []*Result{analyse(*prop, *repo, "", "", false, *tier)}
-	var mutants []mutantOutcome
+	var mutants, benign []mutantOutcome
 	if *tier == "thorough" {
 		type job struct {
 			goos, goarch string
@@ -289,6 +319,7 @@ func main() {
 		wg.Wait()
 		results = append(results, rs...)
 		mutants = mutantSelfTest(*prop, *repo)
+		benign = benignSelfTest(*prop, *repo)
 	}
 
 	// broken input: no verdict
@@ -422,6 +453,21 @@ func main() {
 	if *tier == "thorough" {
 		cov["mutants"] = map[string]any{"total": mt, "killed": mk, "skipped_or_broken": ms, "outcomes": mutants,
 			"note": "self-test of the rules on catalogued property-breaking patches applied to scratch copies; informational, does not affect the verdict for /repo"}
+		bs, ba, bo := 0, 0, 0
+		var alarms []mutantOutcome
+		for _, b := range benign {
+			switch b.Outcome {
+			case "silent":
+				bs++
+			case "alarm":
+				ba++
+				alarms = append(alarms, b)
+			default:
+				bo++
+			}
+		}
+		cov["benign_variants"] = map[string]any{"total": len(benign), "silent": bs, "alarms": ba, "skipped_or_broken": bo, "alarm_outcomes": alarms,
+			"note": "converse self-test: the rules of this property on catalogued behaviour-preserving variants of the code (refactorings written by independent sub-agents); an alarm here is a false alarm of the rules; informational, does not affect the verdict for /repo"}
 	}
 	ev := map[string]any{
 		"property_id": *prop,
@@ -456,6 +502,15 @@ func main() {
 	}
 	if *tier == "thorough" {
 		fmt.Printf("  mutant self-test: %d/%d killed (%d skipped/broken)\n", mk, mt, ms)
+		nb, na := 0, 0
+		for _, b := range benign {
+			nb++
+			if b.Outcome == "alarm" {
+				na++
+				fmt.Printf("    false alarm on behaviour-preserving variant %s: %v\n", b.Patch, b.Fired)
+			}
+		}
+		fmt.Printf("  behaviour-preserving variants: %d/%d silent\n", nb-na, nb)
 		for _, m := range mutants {
 			if m.Outcome != "killed" {
 				fmt.Printf("    %s: %s %s\n", m.Outcome, m.Patch, m.Note)
